@@ -186,6 +186,17 @@ def s3(ck, an):
         # handler body sets self._done = True unconditionally (first-level statement)
         sets = [s for s in h.body if isinstance(s, ast.Assign) and any(isinstance(t, ast.Attribute) and t.attr == "_done" for t in s.targets)]
         good = any(isinstance(s.value, ast.Constant) and s.value.value is True for s in sets)
+        if not good:
+            # flag form: the handler sets a local flag (False before the try) and `self._done = True` runs exactly under that flag
+            flags = [s.targets[0].id for s in h.body if isinstance(s, ast.Assign) and len(s.targets) == 1 and isinstance(s.targets[0], ast.Name) and const_value(s.value) is True]
+            for fl_ in flags:
+                other = [d for d in fa.rd.defs if d.var == fl_ and d.kind == "assign" and not any(d.ast is x for x in h.body)]
+                dones = [s for s in all_stmts(fa) if isinstance(s, ast.Assign) and any(isinstance(t, ast.Attribute) and t.attr == "_done" for t in s.targets) and const_value(s.value) is True]
+                for dn in dones:
+                    gp = fa.syntactic_guards(dn)
+                    iff_ = enclosing_if(dn)
+                    if len(other) == 1 and const_value(other[0].value) is False and len(gp) == 1 and iff_ is not None and isinstance(iff_.test, ast.Name) and iff_.test.id == fl_ and any(dn is x for x in iff_.body):
+                        good = True
         ck.check(good, "EFFECT", "S3.handler-ends-episode", subj, fa.loc(h), "the handler sets _done = True on every path",
                  "the EndOfEpisodeError handler does not unconditionally set self._done = True", construct="except-body: " + "; ".join(ast.unparse(s) for s in h.body))
 
